@@ -1,6 +1,6 @@
 """C02 The hash equals the value defined by the written specification."""
 import astq
-from rules import aes, argon, blake, decode, driver, dsinit, spec, sshash
+from rules import aes, argon, blake, decode, driver, dsinit, interpsem, spec, sshash
 
 LEVEL = 'other'
 TECHNIQUE = 'constant-table and step-sequence agreement between doc/specs.md (parsed tables, hex blocks, lane diagrams) and the resolved AST / assembled objects; FIPS-197 decomposition for the AES round'
@@ -8,9 +8,11 @@ CLAIM = ('Decides statically every statement doc/specs.md makes in machine-reada
          'register-file / program / instruction layouts, the 13 loop steps of 4.6.2, the chapter-2 driver sequence, instruction frequencies and operand rules, branch construction, AES keys / states / lane patterns and the AES '
          'round itself, BlakeGenerator, Argon2 parameters, dataset item constants and step order; plus the structural rules of the delegated primitives (Blake2b constants, compression skeleton and streaming counter, Argon2 fill skeleton / indexing / H0 / H-prime, SuperscalarHash tables and executor) and the rule that a cache is re-initialised whenever the key differs. What the specification states only in prose about computed values (arithmetic results, '
          'SuperscalarHash generation for a given key) is numeric and not claimed.'
-         ' Also decided here because the specification states them: which instructions count as a register modification (5.4.2, LW-SPEC), the IMUL_RCP no-op rule (5.2.6, RCP-NOOP) and that the item stored at dataset index i is item number i for every way of splitting the range (7.3, DS-RANGE-EVAL).')
+         ' Also decided here because the specification states them: which instructions count as a register modification (5.4.2, LW-SPEC), the IMUL_RCP no-op rule (5.2.6, RCP-NOOP) and that the item stored at dataset index i is item number i for every way of splitting the range (7.3, DS-RANGE-EVAL).'
+         ' Interpreter executors: the body of every integer executor is evaluated symbolically on terms and must equal the term of specification 5.2 (INT-EXEC: 17 executors, every shift, all three masks), and every floating-point executor applies the operation of 5.3 to the right operands, with the converted scratchpad operand and, for FDIV_M, the mantissa / exponent masks (FP-EXEC, uninterpreted vector operations; the rx_* wrappers of the host configuration are the packed-double intrinsics of the same name).')
 LEVEL_NOTE = 'Trusted: the specification text as oracle; clang AST; numeric behaviour of the arithmetic executors, Blake2b compression and Argon2 (their constants are checked in C10/C11).'
-EXPLANATION = 'B2-CONST/COMPRESS/UPDATE, A2-SKELETON/XOR/INDEX/H0/HPRIME, SPEC-SSTABLES, SS-EXEC, BIND-KEY (shared with C09-C11, C03), SPEC-CONFIG, SPEC-MASKS, SPEC-VMPROG, SPEC-REGFILE, SPEC-LOOP, DRV-SEQ, SPEC-FREQ/DEC-OPERANDS/MEM-LEVEL/CBR-BITS, SPEC-AESKEYS/PATTERN + AES-ROUND, SPEC-BLAKEGEN, SPEC-ARGON, SPEC-DSCONST/DS-ITEM. LW-SOUND/LW-SPEC and RCP-NOOP (spec 5.4.2 / 5.2.6), DS-RANGE-EVAL (spec 7.3, item number = index for every split).'
+EXPLANATION = ('B2-CONST/COMPRESS/UPDATE, A2-SKELETON/XOR/INDEX/H0/HPRIME, SPEC-SSTABLES, SS-EXEC, BIND-KEY (shared with C09-C11, C03), SPEC-CONFIG, SPEC-MASKS, SPEC-VMPROG, SPEC-REGFILE, SPEC-LOOP, DRV-SEQ, SPEC-FREQ/DEC-OPERANDS/MEM-LEVEL/CBR-BITS, SPEC-AESKEYS/PATTERN + AES-ROUND, SPEC-BLAKEGEN, SPEC-ARGON, SPEC-DSCONST/DS-ITEM. LW-SOUND/LW-SPEC and RCP-NOOP (spec 5.4.2 / 5.2.6), DS-RANGE-EVAL (spec 7.3, item number = index for every split).'
+         ' INT-EXEC, FP-EXEC.')
 
 
 def run(ctx, R):
@@ -44,3 +46,5 @@ def run(ctx, R):
     sshash.rule_tables(ctx, R, F)
     sshash.rule_exec(ctx, R, F)
     driver.rule_bind_key(ctx, R, F)
+    interpsem.rule_int_exec(ctx, R, F)
+    interpsem.rule_fp_exec(ctx, R, astq.Facts(ctx, 'K1'), F)
